@@ -1031,6 +1031,16 @@ func smallLocation(r *core.RNG, depth int) string {
 	return num() + ".." + num()
 }
 
+// edgeDate is a date put together from parts at and beyond the ends of
+// their ranges, months as names in any case and as numbers.
+func edgeDate(r *core.RNG) string {
+	days := []string{"0", "00", "1", "01", "28", "29", "30", "31", "32", "99", "-1", "+1", ""}
+	months := []string{"JAN", "FEB", "feb", "Feb", "APR", "JUN", "SEP", "NOV", "DEC", "dec", "XXX", "00", "0", "01", "1", "02", "2", "12", "13", "99", "+1", "-1", "", "JANUARY"}
+	years := []string{"0", "0000", "1", "1900", "2000", "2019", "2020", "2100", "9999", "10000", "-1", "+2020", "99999999999999999999", ""}
+	sep := []string{"-", "-", "-", "/", " ", ""}[r.Intn(6)]
+	return days[r.Intn(len(days))] + sep + months[r.Intn(len(months))] + sep + years[r.Intn(len(years))]
+}
+
 // fragmentNoise strings are made of pieces of valid locations put together
 // in no order: what one alternative of a parser consumed before it gave up
 // must not be lost to the next.
@@ -1629,6 +1639,9 @@ func (C07) RunSeed(tier string, seed uint64, idx int) *core.Result {
 				case 1: // a valid start with noise behind a separator
 					in = seeds[r.Intn(len(seeds))] + []string{"/", "@", ",", "..", ""}[r.Intn(5)] + grammarNoise(r)
 				}
+			}
+			if fn == "AsDate" && r.Chance(1, 2) {
+				in = edgeDate(r)
 			}
 			sc := &c07Scenario{Kind: "string", Func: fn, Input: in}
 			core.Current, core.CurrentSig = sc, "string:"+fn
